@@ -630,7 +630,7 @@ SHRINK = {'quick': 75, 'thorough': 240}
 def families(tier):
   return [
       core.Family('default', check, strategy=default_strategy,
-                  budget={'quick': 3200, 'thorough': 64000},
+                  budget={'quick': 3200, 'thorough': 100000},
                   shards={'quick': 6, 'thorough': 16},
                   max_shrink_s=SHRINK,
                   required_classes=(
@@ -642,7 +642,7 @@ def families(tier):
                       'reuse', 'n1', 'n9_60', 'strict_judged',
                       'roundtrip_judged')),
       core.Family('outliers', check, strategy=outliers_strategy,
-                  budget={'quick': 640, 'thorough': 9600},
+                  budget={'quick': 640, 'thorough': 16000},
                   shards={'quick': 4, 'thorough': 16},
                   max_shrink_s=SHRINK,
                   required_classes=(
@@ -650,7 +650,7 @@ def families(tier):
                       'k:outliers_FFT', 'nontrivial', 'has_outlier',
                       'outlier_dropped', 'has_infeasible', 'x64', 'reuse')),
       core.Family('components', check, strategy=components_strategy,
-                  budget={'quick': 2400, 'thorough': 40000},
+                  budget={'quick': 2400, 'thorough': 60000},
                   shards={'quick': 6, 'thorough': 16},
                   max_shrink_s=SHRINK,
                   required_classes=(
